@@ -505,6 +505,12 @@ func (m *Manager) acquireTasks(envId uid.ID, taskDescriptors Descriptors) (err e
 
 	DEPLOYMENT_ATTEMPTS_LOOP:
 		for attemptCount := 0; attemptCount < MAX_ATTEMPTS_PER_DEPLOY_REQUEST; attemptCount++ {
+			// The tasks launched by the previous, failed attempt are not taken over by this one (it asks for
+			// everything again): they go to the roster, unowned, so that the next cleanup finds them.
+			for taskPtr := range deployedTasks {
+				taskPtr.SetParent(nil)
+				m.roster.append(taskPtr)
+			}
 			// We loop through the deployment attempts until we either succeed or
 			// reach the maximum number of attempts. In the happy case, we should only
 			// need to try once. A retry should only be necessary if the Mesos master
